@@ -32,6 +32,9 @@ pub struct ConcCase {
     pub phases: Vec<Vec<Job>>,
     /// (worker, burst): let this worker pass `burst` schedule points
     pub choices: Vec<(u8, u8)>,
+    /// also park workers inside the app's `view` and `update` (i.e. while they hold the model lock)
+    #[serde(default)]
+    pub park_in_app: bool,
 }
 
 #[derive(Debug, Default, Clone)]
@@ -45,14 +48,19 @@ pub struct ConcInfo {
     /// a worker was held at an executor point while another ran the executor
     pub executor_overlap: bool,
     pub points: usize,
+    /// a worker was held inside `view` / `update` (holding the model lock) while another worker ran
+    pub held_in_app_while_other_ran: bool,
+    /// ... and that other worker blocked on the lock, so the holder had to be let go
+    pub forced_releases: usize,
 }
 
 #[derive(Default)]
 struct CtlState {
     parked: BTreeMap<usize, &'static str>,
     finished: Vec<usize>,
-    go: Option<usize>,
-    running: Option<usize>,
+    go: std::collections::BTreeSet<usize>,
+    running: std::collections::BTreeSet<usize>,
+    park_in_app: bool,
 }
 #[derive(Default)]
 struct Ctl {
@@ -78,27 +86,43 @@ impl Ctl {
             return;
         }
         let mut st = self.st.lock().unwrap();
+        if name.starts_with("app.") && !st.park_in_app {
+            return;
+        }
         st.parked.insert(me, name);
-        st.running = None;
+        st.running.remove(&me);
         self.cv.notify_all();
-        while st.go != Some(me) {
+        while !st.go.contains(&me) {
             let (g, t) = self.cv.wait_timeout(st, HANG).unwrap();
             st = g;
-            if t.timed_out() && st.go != Some(me) {
+            if t.timed_out() && !st.go.contains(&me) {
                 hang("a worker was never released");
             }
         }
-        st.go = None;
+        st.go.remove(&me);
         st.parked.remove(&me);
-        st.running = Some(me);
+        st.running.insert(me);
     }
     fn finish(&self, me: usize) {
         let mut st = self.st.lock().unwrap();
         st.finished.push(me);
-        st.running = None;
+        st.running.remove(&me);
         self.cv.notify_all();
     }
 }
+
+/// a schedule point inside the test app's `view` / `update`, i.e. while the calling shell thread
+/// holds the core's model lock (no-op for threads that are not workers of a concurrent case)
+pub fn app_point(name: &'static str) {
+    let me = ME.with(|m| m.borrow().clone());
+    if let Some((ctl, id)) = me {
+        ctl.point(id, name);
+    }
+}
+
+/// how long a released worker may stay silent before it is taken to be blocked on the model lock
+/// held by a worker parked inside the app (only schedule exploration depends on this, no verdict)
+const BLOCKED_AFTER: Duration = Duration::from_millis(15);
 
 fn install_hook() {
     INSTALL.call_once(|| {
@@ -219,6 +243,7 @@ pub fn run_conc(case: &ConcCase) -> Result<ConcInfo, String> {
         }
         let n = work.len();
         let ctl = Arc::new(Ctl::default());
+        ctl.st.lock().unwrap().park_in_app = case.park_in_app;
         let handles: Vec<_> = work
             .into_iter()
             .enumerate()
@@ -252,11 +277,24 @@ pub fn run_conc(case: &ConcCase) -> Result<ConcInfo, String> {
         let mut rr = 0usize;
         loop {
             let mut st = ctl.st.lock().unwrap();
-            while !(st.running.is_none() && st.go.is_none() && st.parked.len() + st.finished.len() == n) {
-                let (g, t) = ctl.cv.wait_timeout(st, HANG).unwrap();
+            while !(st.running.is_empty() && st.go.is_empty() && st.parked.len() + st.finished.len() == n) {
+                let holders: Vec<usize> = st.parked.iter().filter(|(_, at)| at.starts_with("app.")).map(|(w, _)| *w).collect();
+                let (g, t) = ctl.cv.wait_timeout(st, if holders.is_empty() { HANG } else { BLOCKED_AFTER }).unwrap();
                 st = g;
                 if t.timed_out() {
-                    hang("workers neither parked nor finished");
+                    // the running worker is silent: if another worker is parked while holding the model
+                    // lock, the running one is waiting for that lock - let the holder go on
+                    let holders: Vec<usize> = st.parked.iter().filter(|(w, at)| at.starts_with("app.") && !st.go.contains(w)).map(|(w, _)| *w).collect();
+                    match holders.first() {
+                        Some(&h) => {
+                            info.forced_releases += 1;
+                            st.go.insert(h);
+                            st.running.insert(h);
+                            ctl.cv.notify_all();
+                        }
+                        None if holders.is_empty() && !st.parked.values().any(|at| at.starts_with("app.")) => hang("workers neither parked nor finished"),
+                        None => {}
+                    }
                 }
             }
             if st.finished.len() == n {
@@ -293,9 +331,12 @@ pub fn run_conc(case: &ConcCase) -> Result<ConcInfo, String> {
                 if at.starts_with("ex.") && (going.starts_with("ex.") || going.starts_with("cmd.")) {
                     info.executor_overlap = true;
                 }
+                if at.starts_with("app.") {
+                    info.held_in_app_while_other_ran = true;
+                }
             }
-            st.go = Some(cur);
-            st.running = Some(cur);
+            st.go.insert(cur);
+            st.running.insert(cur);
             ctl.cv.notify_all();
         }
 
